@@ -15,9 +15,9 @@ type Block = cfg.Block
 // Graph is the control-flow graph of one function body (go/cfg) with the
 // helpers the path rules need.
 type Graph struct {
-	nilUse map[*ast.Ident]*[2]bool // nilAtUse cache (nil entry: being computed)
-	defCache map[defKey]defVal
-	signFlags map[types.Object]bool // found-index variables (-1 or non-negative), see boolFlags
+	nilUse      map[*ast.Ident]*[2]bool // nilAtUse cache (nil entry: being computed)
+	defCache    map[defKey]defVal
+	signFlags   map[types.Object]bool // found-index variables (-1 or non-negative), see boolFlags
 	Fn          *Fn
 	C           *cfg.CFG
 	Blocks      []*cfg.Block // live blocks
@@ -663,6 +663,20 @@ func (g *Graph) EdgesImplying(guard Guard) []Edge {
 	for _, e := range g.establishingEdges(guard) {
 		if !seen[e] {
 			out = append(out, e)
+		}
+	}
+	return out
+}
+
+// DirectEdgesImplying is EdgesImplying without the edges that establish the guard only through a tracked flag: the
+// edges whose own condition decides it.
+func (g *Graph) DirectEdgesImplying(guard Guard) []Edge {
+	var out []Edge
+	for _, b := range g.Blocks {
+		for k := range b.Succs {
+			if g.EdgeImplies(b, k, guard) {
+				out = append(out, Edge{b, k})
+			}
 		}
 	}
 	return out
